@@ -17,9 +17,199 @@ All statements quantify over every schema `S`, every list, every node and every 
 namespace LyModel.Props.C04
 open LyModel LyModel.Sib
 
+/-! ## audit support: executable, sound checkers for the hypothesis structures, and two witness histories
+
+`NewOk` / `OpOk` / `HistOk` are `Prop`-valued structures with quantifiers over schema references, so `decide` cannot
+discharge them on a concrete instance.  The Boolean versions below are *sufficient* conditions (soundness lemmas
+`…_sound`); they are used only by the `non-vacuity (audit)` examples, never by a property theorem. -/
+
+def newOkB (S : Schema) (cx : Cx) (s : Sibs) (n : Node) : Bool :=
+  s.nodes.all (fun m => m.id != n.id) &&
+  (match n.sch with
+   | none => true
+   | some y =>
+     decide (y.idx < cx.nsch y.mod) &&
+     (cx.top || s.nodes.all (fun a => match a.sch with | none => true | some x => x.mod == y.mod)) &&
+     s.nodes.all (fun a => a.sch != some y || (S y).listLike))
+
+theorem newOkB_sound {S : Schema} {cx : Cx} {s : Sibs} {n : Node} (h : newOkB S cx s n = true) : NewOk S cx s n := by
+  unfold newOkB at h
+  rw [Bool.and_eq_true, List.all_eq_true] at h
+  obtain ⟨h1, h2⟩ := h
+  refine ⟨?_, ?_, ?_, ?_⟩
+  · intro m hm; simpa using h1 m hm
+  · intro x hx
+    rw [hx] at h2
+    simp only [Bool.and_eq_true, decide_eq_true_eq] at h2
+    exact h2.1.1
+  · intro ht a ha x y hx hy
+    rw [hy] at h2
+    simp only [Bool.and_eq_true, Bool.or_eq_true, List.all_eq_true, ht] at h2
+    have := h2.1.2
+    simp only [Bool.false_eq_true, false_or] at this
+    have := this a ha
+    rw [hx] at this
+    simpa using this
+  · intro a ha x hx hy
+    rw [hy] at h2
+    simp only [Bool.and_eq_true, List.all_eq_true] at h2
+    have := h2.2 a ha
+    simpa [hx] using this
+
+def opOkB (S : Schema) (cx : Cx) (s : Sibs) : Op → Bool
+  | .insert n => newOkB S cx s n
+  | .unlink _ => true
+  | .before t n => newOkB S cx s n &&
+      (match n.sch with
+       | none => false
+       | some x => (S x).userOrd && s.nodes.any (fun m => m.id == t && m.sch == some x))
+  | .after t n => newOkB S cx s n &&
+      (match n.sch with
+       | none => false
+       | some x => (S x).userOrd && s.nodes.any (fun m => m.id == t && m.sch == some x))
+  | .change _ _ => true
+
+theorem opOkB_sound {S : Schema} {cx : Cx} {s : Sibs} {o : Op} (h : opOkB S cx s o = true) : OpOk S cx s o := by
+  have aux : ∀ (t : Nat) (n : Node), (newOkB S cx s n &&
+      (match n.sch with
+       | none => false
+       | some x => (S x).userOrd && s.nodes.any (fun m => m.id == t && m.sch == some x))) = true →
+      NewOk S cx s n ∧ ∃ x, n.sch = some x ∧ (S x).userOrd = true ∧ ∃ m ∈ s.nodes, m.id = t ∧ m.sch = some x := by
+    intro t n h
+    rw [Bool.and_eq_true] at h
+    refine ⟨newOkB_sound h.1, ?_⟩
+    have h2 := h.2
+    cases hs : n.sch with
+    | none => rw [hs] at h2; cases h2
+    | some x =>
+      rw [hs] at h2
+      simp only [Bool.and_eq_true, List.any_eq_true, beq_iff_eq] at h2
+      obtain ⟨hu, m, hm, e1, e2⟩ := h2
+      exact ⟨x, rfl, hu, m, hm, e1, e2⟩
+  cases o with
+  | insert n => exact newOkB_sound h
+  | unlink _ => trivial
+  | before t n => exact aux t n h
+  | after t n => exact aux t n h
+  | change _ _ => trivial
+
+def histOkB (S : Schema) (cx : Cx) (fixed : Bool) : Sibs → List Op → Bool
+  | _, [] => true
+  | s, o :: r => opOkB S cx s o && histOkB S cx fixed (step S cx fixed s o) r
+
+theorem histOkB_sound {S : Schema} {cx : Cx} {fixed : Bool} : ∀ {ops : List Op} {s : Sibs},
+    histOkB S cx fixed s ops = true → HistOk S cx fixed s ops
+  | [], _, _ => trivial
+  | o :: r, s, h => by
+    simp only [histOkB, Bool.and_eq_true] at h
+    exact ⟨opOkB_sound h.1, histOkB_sound h.2⟩
+
+/-- sufficient, decidable form of hypothesis `hu` of `find_iff_scan` -/
+def uniqMatchB (S : Schema) (s : Sibs) (t : Node) : Bool :=
+  match t.sch with
+  | none => true
+  | some x => (S x).dupInst ||
+      s.nodes.all (fun m1 => s.nodes.all (fun m2 => !(isMatch S t m1 && isMatch S t m2) || m1 == m2))
+
+theorem uniqMatchB_sound {S : Schema} {s : Sibs} {t : Node} (h : uniqMatchB S s t = true) :
+    ∀ x, t.sch = some x → (S x).dupInst = false →
+      ∀ m1 ∈ s.nodes, ∀ m2 ∈ s.nodes, isMatch S t m1 = true → isMatch S t m2 = true → m1 = m2 := by
+  intro x hx hd m1 h1 m2 h2 e1 e2
+  unfold uniqMatchB at h
+  rw [hx] at h
+  simp only [hd, Bool.false_or, List.all_eq_true] at h
+  have := h m1 h1 m2 h2
+  simpa [e1, e2] using this
+
+/-- the tie hypothesis of `insert_perm` quantifies over *all* nodes `a`; it is enough (and decidable) to check it for the
+    nodes that occur in `xs ++ ys`: a node tied with none of them filters both lists to `[]`, a node tied with some `c` of
+    them filters like `c` does (`nle` is a total preorder). -/
+theorem ties_of_mem (S : Schema) (xs ys : List Node)
+    (h : ∀ a ∈ xs ++ ys, xs.filter (fun b => nle S a b && nle S b a) = ys.filter (fun b => nle S a b && nle S b a)) :
+    ∀ a, xs.filter (fun b => nle S a b && nle S b a) = ys.filter (fun b => nle S a b && nle S b a) := by
+  intro a
+  by_cases hex : ∃ c ∈ xs ++ ys, (nle S a c && nle S c a) = true
+  · obtain ⟨c, hc, hac⟩ := hex
+    rw [Bool.and_eq_true] at hac
+    have hf : (fun b => nle S a b && nle S b a) = (fun b => nle S c b && nle S b c) := by
+      funext b
+      cases hb : (nle S c b && nle S b c)
+      · cases hb' : (nle S a b && nle S b a)
+        · rfl
+        · rw [Bool.and_eq_true] at hb'
+          have : (nle S c b && nle S b c) = true := by
+            rw [Bool.and_eq_true]
+            exact ⟨nle_trans S _ _ _ hac.2 hb'.1, nle_trans S _ _ _ hb'.2 hac.1⟩
+          rw [hb] at this; cases this
+      · rw [Bool.and_eq_true] at hb ⊢
+        exact ⟨nle_trans S _ _ _ hac.1 hb.1, nle_trans S _ _ _ hb.2 hac.2⟩
+    rw [hf]
+    exact h c hc
+  · have hn : ∀ l : List Node, (∀ b ∈ l, b ∈ xs ++ ys) → l.filter (fun b => nle S a b && nle S b a) = [] := by
+      intro l hl
+      rw [List.filter_eq_nil_iff]
+      intro b hb hp
+      exact hex ⟨b, hl b hb, hp⟩
+    rw [hn xs (fun b hb => List.mem_append_left _ hb), hn ys (fun b hb => List.mem_append_right _ hb)]
+
+/-- audit witness schema: keyed system-ordered list, system-ordered leaf-list, leaf, user-ordered list, state leaf-list
+    (duplicates allowed), container -/
+def auS : Schema := fun r =>
+  match r.idx with
+  | 0 => .list .sys
+  | 1 => .leaflist .sys
+  | 2 => .leaf
+  | 3 => .list .user
+  | 4 => .leaflist .dup
+  | _ => .cont
+
+/-- children of an inner node (hash table possible), seven schema siblings -/
+def auCx : Cx := { nested := true, top := false, nsch := fun _ => 7 }
+
+/-- a history over `auS` starting from no children: user-ordered list instances `b`, `a`, `z` (established order, not key
+    order), keyed list instances `"m"`, `"c"` (the 4th schema child creates the hash table; `"c"` takes over the
+    first-instance record), an opaque node, leaf-list values 5, -3, two equal state-leaf-list values, `insert_before` /
+    `insert_after`, unlink of the keyed list's leader, change of a leaf-list value that re-sorts it, a container -/
+def auOps : List Op :=
+  [.insert ⟨1, some ⟨0, 3⟩, .str [98]⟩, .insert ⟨2, some ⟨0, 0⟩, .str [109]⟩, .insert ⟨3, some ⟨0, 2⟩, .str []⟩,
+   .insert ⟨4, some ⟨0, 0⟩, .str [99]⟩, .insert ⟨5, some ⟨0, 3⟩, .str [97]⟩, .insert ⟨6, none, .str []⟩,
+   .insert ⟨7, some ⟨0, 1⟩, .int 5⟩, .insert ⟨8, some ⟨0, 1⟩, .int (-3)⟩, .before 1 ⟨9, some ⟨0, 3⟩, .str [122]⟩,
+   .insert ⟨10, some ⟨0, 4⟩, .int 1⟩, .after 10 ⟨11, some ⟨0, 4⟩, .int 1⟩, .unlink 4, .change 8 (.int 9),
+   .insert ⟨12, some ⟨0, 5⟩, .str []⟩]
+
+/-- the state `auOps` leads to (with the corrected change-value) -/
+def auS1 : Sibs := runOps auS auCx true ⟨[], none⟩ auOps
+
+/-- top-level sibling list (no hash table; data of three modules) -/
+def auTop : Cx := { nested := false, top := true, nsch := fun _ => 7 }
+
+def auTopOps : List Op :=
+  [.insert ⟨1, some ⟨1, 0⟩, .str [120]⟩, .insert ⟨2, some ⟨2, 2⟩, .str []⟩, .insert ⟨3, some ⟨0, 1⟩, .int 4⟩,
+   .insert ⟨4, some ⟨1, 0⟩, .str [97]⟩, .insert ⟨5, none, .str []⟩, .insert ⟨6, some ⟨0, 1⟩, .int 2⟩,
+   .insert ⟨7, some ⟨1, 3⟩, .str [113]⟩, .unlink 3, .insert ⟨8, some ⟨0, 5⟩, .str []⟩]
+
+theorem auOps_ok : HistOk auS auCx true ⟨[], none⟩ auOps := histOkB_sound (by decide)
+
+theorem auS1_inv : Inv auS auCx auS1 :=
+  inv_runOps auS auCx true auOps _ (inv_empty auS auCx (fun _ => rfl)) auOps_ok (Or.inl rfl)
+
+/-- the state after the first three inserts of `auOps`: three schema children, no hash table yet -/
+def auS0 : Sibs := runOps auS auCx true ⟨[], none⟩ (auOps.take 3)
+
+theorem auS0_inv : Inv auS auCx auS0 :=
+  inv_runOps auS auCx true (auOps.take 3) _ (inv_empty auS auCx (fun _ => rfl)) (histOkB_sound (by decide)) (Or.inl rfl)
+
+/-- what the witness states look like: sibling order (identities) and number of hash records -/
+example : auS0.nodes.map (·.id) = [2, 3, 1] ∧ auS0.ht = none := by decide
+example : auS1.nodes.map (·.id) = [2, 7, 8, 3, 9, 1, 5, 10, 11, 12, 6] ∧ auS1.ht.map List.length = some 14 := by decide
+
 /-- the empty sibling list is canonical -/
 theorem inv_init (S : Schema) (cx : Cx) (hwf : cx.nested = true → cx.top = false) : Inv S cx ⟨[], none⟩ :=
   inv_empty S cx hwf
+
+/-- non-vacuity (audit): `hwf` is met by both kinds of sibling list — children of an inner node and a top-level list -/
+example : Inv auS auCx ⟨[], none⟩ ∧ Inv auS auTop ⟨[], none⟩ :=
+  ⟨inv_init _ _ (by decide), inv_init _ _ (by decide)⟩
 
 /-- `lyd_insert_node(…, LYD_INSERT_NODE_DEFAULT)` — anchor search by either algorithm, sorted insertion of system-ordered
     instances, hash-table update incl. lazy creation at `LYD_HT_MIN_ITEMS` and first-instance hand-over -/
@@ -27,20 +217,83 @@ theorem inv_step_insert (S : Schema) (cx : Cx) (s : Sibs) (n : Node) (h : Inv S 
     Inv S cx (insertNode S cx s n) :=
   inv_insertNode S cx s n h hn
 
+/-- non-vacuity (audit): the 4th schema child (keyed-list instance `"c"` in front of the leader `"m"`) creates the hash
+    table lazily: 4 own records + first-instance records of the keyed list (now `"c"`, id 4) and of the user-ordered list -/
+example : Inv auS auCx (insertNode auS auCx auS0 ⟨4, some ⟨0, 0⟩, .str [99]⟩) ∧
+    (insertNode auS auCx auS0 ⟨4, some ⟨0, 0⟩, .str [99]⟩).nodes.map (·.id) = [4, 2, 3, 1] ∧
+    ((insertNode auS auCx auS0 ⟨4, some ⟨0, 0⟩, .str [99]⟩).ht.map List.length) = some 6 ∧
+    (HKey.sch ⟨0, 0⟩, 4) ∈ ((insertNode auS auCx auS0 ⟨4, some ⟨0, 0⟩, .str [99]⟩).ht.getD []) :=
+  ⟨inv_step_insert _ _ _ _ auS0_inv (newOkB_sound (by decide)), by decide, by decide, by decide⟩
+
+/-- non-vacuity (audit): into the 11-node state `auS1` (hash table exists; keyed list, leaf-lists, user-ordered list,
+    state leaf-list, container, opaque node): a user-ordered list instance with the smallest key still goes behind the
+    existing instances `z, b, a`; an opaque node goes last; a state-leaf-list duplicate goes behind its equals -/
+example : Inv auS auCx (insertNode auS auCx auS1 ⟨20, some ⟨0, 3⟩, .str [65]⟩) ∧
+    (insertNode auS auCx auS1 ⟨20, some ⟨0, 3⟩, .str [65]⟩).nodes.map (·.id) = [2, 7, 8, 3, 9, 1, 5, 20, 10, 11, 12, 6] :=
+  ⟨inv_step_insert _ _ _ _ auS1_inv (newOkB_sound (by decide)), by decide⟩
+
+example : Inv auS auCx (insertNode auS auCx auS1 ⟨20, none, .str [65]⟩) ∧
+    (insertNode auS auCx auS1 ⟨20, none, .str [65]⟩).nodes.map (·.id) = [2, 7, 8, 3, 9, 1, 5, 10, 11, 12, 6, 20] :=
+  ⟨inv_step_insert _ _ _ _ auS1_inv (newOkB_sound (by decide)), by decide⟩
+
+example : Inv auS auCx (insertNode auS auCx auS1 ⟨20, some ⟨0, 4⟩, .int 1⟩) ∧
+    (insertNode auS auCx auS1 ⟨20, some ⟨0, 4⟩, .int 1⟩).nodes.map (·.id) = [2, 7, 8, 3, 9, 1, 5, 10, 11, 20, 12, 6] :=
+  ⟨inv_step_insert _ _ _ _ auS1_inv (newOkB_sound (by decide)), by decide⟩
+
+/-- non-vacuity (audit): `NewOk` does reject something — a second instance of the leaf (id 3) is not insertable -/
+example : ¬ NewOk auS auCx auS1 ⟨20, some ⟨0, 2⟩, .str []⟩ := by
+  intro h
+  have := h.single ⟨3, some ⟨0, 2⟩, .str []⟩ (by decide) ⟨0, 2⟩ rfl rfl
+  revert this; decide
+
 /-- `lyd_unlink` — incl. the hand-over of the first-instance record to the next instance -/
 theorem inv_step_unlink (S : Schema) (cx : Cx) (s : Sibs) (id : Nat) (h : Inv S cx s) :
     Inv S cx (unlinkNode S cx s id) :=
   inv_unlinkNode S cx s id h
+
+/-- non-vacuity (audit): unlinking the leader (value 5, id 7) of the leaf-list in `auS1` hands the first-instance record
+    over to the next instance (id 8); unlinking the only keyed-list instance (id 2) drops its first-instance record -/
+example : Inv auS auCx (unlinkNode auS auCx auS1 7) ∧
+    (unlinkNode auS auCx auS1 7).nodes.map (·.id) = [2, 8, 3, 9, 1, 5, 10, 11, 12, 6] ∧
+    (HKey.sch ⟨0, 1⟩, 8) ∈ ((unlinkNode auS auCx auS1 7).ht.getD []) ∧
+    (HKey.sch ⟨0, 1⟩, 7) ∉ ((unlinkNode auS auCx auS1 7).ht.getD []) :=
+  ⟨inv_step_unlink _ _ _ _ auS1_inv, by decide, by decide, by decide⟩
+
+example : Inv auS auCx (unlinkNode auS auCx auS1 2) ∧
+    ((unlinkNode auS auCx auS1 2).ht.map List.length) = some 12 :=
+  ⟨inv_step_unlink _ _ _ _ auS1_inv, by decide⟩
 
 /-- `lyd_insert_before` (user-ordered instance next to an instance of the same schema) -/
 theorem inv_step_before (S : Schema) (cx : Cx) (s : Sibs) (t : Nat) (n : Node) (h : Inv S cx s)
     (hok : OpOk S cx s (.before t n)) : Inv S cx (insertBefore S cx s t n) :=
   inv_insertBefore S cx s t n h hok
 
+/-- non-vacuity (audit): `OpOk … (.before …)` is met in `auS1` — a user-ordered list instance in front of the first one
+    (id 9, so the first-instance record moves to the new node) and a state-leaf-list instance in front of the second equal one -/
+example : Inv auS auCx (insertBefore auS auCx auS1 9 ⟨20, some ⟨0, 3⟩, .str [120]⟩) ∧
+    (insertBefore auS auCx auS1 9 ⟨20, some ⟨0, 3⟩, .str [120]⟩).nodes.map (·.id) = [2, 7, 8, 3, 20, 9, 1, 5, 10, 11, 12, 6] ∧
+    (HKey.sch ⟨0, 3⟩, 20) ∈ ((insertBefore auS auCx auS1 9 ⟨20, some ⟨0, 3⟩, .str [120]⟩).ht.getD []) :=
+  ⟨inv_step_before _ _ _ _ _ auS1_inv (opOkB_sound (o := .before _ _) (by decide)), by decide, by decide⟩
+
+example : Inv auS auCx (insertBefore auS auCx auS1 11 ⟨20, some ⟨0, 4⟩, .int 1⟩) ∧
+    (insertBefore auS auCx auS1 11 ⟨20, some ⟨0, 4⟩, .int 1⟩).nodes.map (·.id) = [2, 7, 8, 3, 9, 1, 5, 10, 20, 11, 12, 6] :=
+  ⟨inv_step_before _ _ _ _ _ auS1_inv (opOkB_sound (o := .before _ _) (by decide)), by decide⟩
+
 /-- `lyd_insert_after` -/
 theorem inv_step_after (S : Schema) (cx : Cx) (s : Sibs) (t : Nat) (n : Node) (h : Inv S cx s)
     (hok : OpOk S cx s (.after t n)) : Inv S cx (insertAfter S cx s t n) :=
   inv_insertAfter S cx s t n h hok
+
+/-- non-vacuity (audit): `OpOk … (.after …)` is met in `auS1` — behind the last user-ordered list instance (id 5) -/
+example : Inv auS auCx (insertAfter auS auCx auS1 5 ⟨20, some ⟨0, 3⟩, .str [120]⟩) ∧
+    (insertAfter auS auCx auS1 5 ⟨20, some ⟨0, 3⟩, .str [120]⟩).nodes.map (·.id) = [2, 7, 8, 3, 9, 1, 5, 20, 10, 11, 12, 6] :=
+  ⟨inv_step_after _ _ _ _ _ auS1_inv (opOkB_sound (o := .after _ _) (by decide)), by decide⟩
+
+/-- non-vacuity (audit): `OpOk` does reject — `insert_before` of a system-ordered leaf-list instance is not admitted -/
+example : ¬ OpOk auS auCx auS1 (.before 7 ⟨20, some ⟨0, 1⟩, .int 0⟩) := by
+  rintro ⟨_, x, hx, hu, _⟩
+  cases hx
+  revert hu; decide
 
 /-- FULL STATEMENT — every op, `lyd_change_node_value` as the C source has it — is FALSE (finding F19): the node is
     re-inserted, and indexed, under its old hash before `lyd_hash()` recomputes it.  Witness: children
@@ -71,21 +324,54 @@ theorem inv_step_partial (S : Schema) (cx : Cx) (fixed : Bool) (s : Sibs) (o : O
     (hok : OpOk S cx s o) (hc : isChange o = false) : Inv S cx (step S cx fixed s o) :=
   inv_step_gen S cx fixed s o h hok (Or.inr hc)
 
+/-- non-vacuity (audit): a non-change op with the C source's change-value selected (`fixed = false`), in `auS1` -/
+example : Inv auS auCx (step auS auCx false auS1 (.after 10 ⟨20, some ⟨0, 4⟩, .int 7⟩)) :=
+  inv_step_partial _ _ false _ _ auS1_inv (opOkB_sound (o := .after _ _) (by decide)) rfl
+
 /-- with the two calls in the corrected order (`lyd_hash` before the re-insertion, see fixes/F19.diff) change-value
     preserves the invariant: re-sorted position, re-hashed records, no stale record -/
 theorem inv_step_changeValue_fixed (S : Schema) (cx : Cx) (s : Sibs) (id : Nat) (k : Key) (h : Inv S cx s) :
     Inv S cx (changeKeyFixed S cx s id k).1 :=
   inv_changeKeyFixed S cx s id k h
 
+/-- non-vacuity (audit): in `auS1` changing leaf-list value 5 (id 7, the leader) to 100 moves it behind 9 (id 8) and hands
+    the first-instance record over; changing the key of the lone keyed-list instance (id 2) re-hashes it in place -/
+example : Inv auS auCx (changeKeyFixed auS auCx auS1 7 (.int 100)).1 ∧
+    (changeKeyFixed auS auCx auS1 7 (.int 100)).1.nodes.map (·.id) = [2, 8, 7, 3, 9, 1, 5, 10, 11, 12, 6] ∧
+    (HKey.sch ⟨0, 1⟩, 8) ∈ ((changeKeyFixed auS auCx auS1 7 (.int 100)).1.ht.getD []) ∧
+    (HKey.inst ⟨0, 1⟩ (.int 100), 7) ∈ ((changeKeyFixed auS auCx auS1 7 (.int 100)).1.ht.getD []) ∧
+    (HKey.inst ⟨0, 1⟩ (.int 5), 7) ∉ ((changeKeyFixed auS auCx auS1 7 (.int 100)).1.ht.getD []) :=
+  ⟨inv_step_changeValue_fixed _ _ _ _ _ auS1_inv, by decide, by decide, by decide, by decide⟩
+
+example : Inv auS auCx (changeKeyFixed auS auCx auS1 2 (.str [113])).1 ∧
+    (HKey.inst ⟨0, 0⟩ (.str [113]), 2) ∈ ((changeKeyFixed auS auCx auS1 2 (.str [113])).1.ht.getD []) :=
+  ⟨inv_step_changeValue_fixed _ _ _ _ _ auS1_inv, by decide⟩
+
 /-- every history of edits (corrected change-value) starting in a canonical list ends in a canonical list -/
 theorem inv_reachable (S : Schema) (cx : Cx) (ops : List Op) (s : Sibs) (h : Inv S cx s)
     (hok : HistOk S cx true s ops) : Inv S cx (runOps S cx true s ops) :=
   inv_runOps S cx true ops s h hok (Or.inl rfl)
 
+/-- non-vacuity (audit): the 14-op history `auOps` from the empty list — keyed list, two leaf-lists (system-ordered and
+    state), user-ordered list, leaf, container, opaque node; lazy creation of the hash table, `insert_before/after`,
+    unlink of a leader, re-sorting change-value — meets `HistOk` and ends in the 11-node state `auS1` -/
+example : Inv auS auCx (runOps auS auCx true ⟨[], none⟩ auOps) :=
+  inv_reachable _ _ _ _ (inv_init _ _ (by decide)) auOps_ok
+
 /-- with the change-value of the C source: every history without a change-value op -/
 theorem inv_reachable_partial (S : Schema) (cx : Cx) (ops : List Op) (s : Sibs) (h : Inv S cx s)
     (hok : HistOk S cx false s ops) (hc : ∀ o ∈ ops, isChange o = false) : Inv S cx (runOps S cx false s ops) :=
   inv_runOps S cx false ops s h hok (Or.inr hc)
+
+/-- non-vacuity (audit): `auOps` without its change-value op, under the change-value of the C source -/
+example : Inv auS auCx (runOps auS auCx false ⟨[], none⟩ (auOps.eraseIdx 12)) :=
+  inv_reachable_partial _ _ _ _ (inv_init _ _ (by decide)) (histOkB_sound (by decide)) (by decide)
+
+/-- non-vacuity (audit): a top-level sibling list (no hash table, `Inv.oneMod` not applicable): data of three modules
+    inserted out of module order, a keyed list sorted inside module 1, an opaque node, an unlink -/
+example : Inv auS auTop (runOps auS auTop false ⟨[], none⟩ auTopOps) ∧
+    (runOps auS auTop false ⟨[], none⟩ auTopOps).nodes.map (·.id) = [6, 8, 4, 1, 7, 2, 5] :=
+  ⟨inv_reachable_partial _ _ _ _ (inv_init _ _ (by decide)) (histOkB_sound (by decide)) (by decide), by decide⟩
 
 /-- `lyd_find_sibling_first` / `_val`: through the hash table (full hash; for duplicate-instance lists the first-instance
     record and a walk over the instances) or by scan — the same node, or none.  `hu`: at most one sibling compares equal
@@ -103,10 +389,47 @@ theorem find_iff_scan (S : Schema) (cx : Cx) (s : Sibs) (t : Node) (h : Inv S cx
     | none => rfl
     | some recs => exact findHt_eq_scan S cx s recs t h hht hu
 
+/-- non-vacuity (audit): in `auS1` (hash table with 14 records) hypothesis `hu` holds and both searches return the same
+    node for: the keyed-list instance `"m"`, the leaf-list value 9, the user-ordered list instance `"a"`, the leaf; the
+    same `none` for an absent key; and, with `hu` void (state leaf-list), the FIRST of the two equal values 1 -/
+example : findFirst auS auCx auS1 ⟨0, some ⟨0, 0⟩, .str [109]⟩ = findScan auS auS1.nodes ⟨0, some ⟨0, 0⟩, .str [109]⟩ ∧
+    findFirst auS auCx auS1 ⟨0, some ⟨0, 0⟩, .str [109]⟩ = some 2 :=
+  ⟨find_iff_scan _ _ _ _ auS1_inv (uniqMatchB_sound (by decide)), by decide⟩
+
+example : findFirst auS auCx auS1 ⟨0, some ⟨0, 1⟩, .int 9⟩ = findScan auS auS1.nodes ⟨0, some ⟨0, 1⟩, .int 9⟩ ∧
+    findFirst auS auCx auS1 ⟨0, some ⟨0, 1⟩, .int 9⟩ = some 8 :=
+  ⟨find_iff_scan _ _ _ _ auS1_inv (uniqMatchB_sound (by decide)), by decide⟩
+
+example : findFirst auS auCx auS1 ⟨0, some ⟨0, 3⟩, .str [97]⟩ = findScan auS auS1.nodes ⟨0, some ⟨0, 3⟩, .str [97]⟩ ∧
+    findFirst auS auCx auS1 ⟨0, some ⟨0, 3⟩, .str [97]⟩ = some 5 :=
+  ⟨find_iff_scan _ _ _ _ auS1_inv (uniqMatchB_sound (by decide)), by decide⟩
+
+example : findFirst auS auCx auS1 ⟨0, some ⟨0, 2⟩, .int 77⟩ = findScan auS auS1.nodes ⟨0, some ⟨0, 2⟩, .int 77⟩ ∧
+    findFirst auS auCx auS1 ⟨0, some ⟨0, 2⟩, .int 77⟩ = some 3 :=
+  ⟨find_iff_scan _ _ _ _ auS1_inv (uniqMatchB_sound (by decide)), by decide⟩
+
+example : findFirst auS auCx auS1 ⟨0, some ⟨0, 1⟩, .int 6⟩ = findScan auS auS1.nodes ⟨0, some ⟨0, 1⟩, .int 6⟩ ∧
+    findScan auS auS1.nodes ⟨0, some ⟨0, 1⟩, .int 6⟩ = none :=
+  ⟨find_iff_scan _ _ _ _ auS1_inv (uniqMatchB_sound (by decide)), by decide⟩
+
+example : findFirst auS auCx auS1 ⟨0, some ⟨0, 4⟩, .int 1⟩ = findScan auS auS1.nodes ⟨0, some ⟨0, 4⟩, .int 1⟩ ∧
+    findFirst auS auCx auS1 ⟨0, some ⟨0, 4⟩, .int 1⟩ = some 10 :=
+  ⟨find_iff_scan _ _ _ _ auS1_inv (uniqMatchB_sound (by decide)), by decide⟩
+
+/-- non-vacuity (audit): `hu` is a real restriction — `Inv` admits two equal values of a system-ordered leaf-list (config
+    duplicates in a not yet validated tree), and then `hu` fails for that value -/
+example : ¬ uniqMatchB auS (insertNode auS auCx auS1 ⟨20, some ⟨0, 1⟩, .int 9⟩) ⟨0, some ⟨0, 1⟩, .int 9⟩ = true := by decide
+
 /-- `lyd_find_sibling_schema`: the first-instance lookup through the table = the linear search for the first instance -/
 theorem find_schema_iff_scan (S : Schema) (cx : Cx) (s : Sibs) (x : SRef) (h : Inv S cx s) :
     findSchema cx s x = s.nodes.findIdx? (fun e => e.sch == some x) :=
   findSchema_spec S cx s x h
+
+/-- non-vacuity (audit): in `auS1` through the table — the user-ordered list's first instance is at index 4, the state
+    leaf-list's at 7; a schema node without instance gives `none` on both sides -/
+example : findSchema auCx auS1 ⟨0, 3⟩ = auS1.nodes.findIdx? (fun e => e.sch == some ⟨0, 3⟩) ∧
+    findSchema auCx auS1 ⟨0, 3⟩ = some 4 ∧ findSchema auCx auS1 ⟨0, 4⟩ = some 7 ∧ findSchema auCx auS1 ⟨0, 6⟩ = none :=
+  ⟨find_schema_iff_scan auS _ _ _ auS1_inv, by decide, by decide, by decide⟩
 
 /-- the two algorithms of `lyd_insert_get_next_anchor` put the node at the same place -/
 theorem anchor_hash_eq_linear (S : Schema) (cx : Cx) (s : Sibs) (recs : List Rec) (n : Node) (h : Inv S cx s)
@@ -121,12 +444,38 @@ theorem anchor_hash_eq_linear (S : Schema) (cx : Cx) (s : Sibs) (recs : List Rec
         (hone (h.cxwf hnest)),
       anchorLinear_pos S cx s.nodes n nx hsch h.sorted h.range (hn.range nx hsch) hone]
 
+/-- non-vacuity (audit): `auS1` with its leaf (id 3) unlinked, a new leaf instance: both algorithms find the anchor at
+    index 3 (the first user-ordered list instance, id 9) — the hash variant by first-instance lookups of the following
+    schema nodes, the linear one by the lock-step walk -/
+example : posBySchema (unlinkNode auS auCx auS1 3).nodes ⟨20, some ⟨0, 2⟩, .str []⟩
+      (anchorHash auCx ((unlinkNode auS auCx auS1 3).ht.getD []) (unlinkNode auS auCx auS1 3).nodes ⟨20, some ⟨0, 2⟩, .str []⟩) =
+    posBySchema (unlinkNode auS auCx auS1 3).nodes ⟨20, some ⟨0, 2⟩, .str []⟩
+      (anchorLinear auCx (unlinkNode auS auCx auS1 3).nodes ⟨20, some ⟨0, 2⟩, .str []⟩) ∧
+    anchorHash auCx ((unlinkNode auS auCx auS1 3).ht.getD []) (unlinkNode auS auCx auS1 3).nodes ⟨20, some ⟨0, 2⟩, .str []⟩ = some 3 ∧
+    anchorLinear auCx (unlinkNode auS auCx auS1 3).nodes ⟨20, some ⟨0, 2⟩, .str []⟩ = some 3 :=
+  ⟨anchor_hash_eq_linear auS auCx _ _ _ (inv_step_unlink _ _ _ _ auS1_inv) (newOkB_sound (by decide)) rfl (by decide),
+   by decide, by decide⟩
+
+/-- non-vacuity (audit): no following instance at all (new container sibling behind everything but the opaque node):
+    both algorithms return no anchor and the node goes in front of the opaque tail -/
+example : posBySchema auS1.nodes ⟨20, some ⟨0, 6⟩, .str []⟩ (anchorHash auCx (auS1.ht.getD []) auS1.nodes ⟨20, some ⟨0, 6⟩, .str []⟩) =
+    posBySchema auS1.nodes ⟨20, some ⟨0, 6⟩, .str []⟩ (anchorLinear auCx auS1.nodes ⟨20, some ⟨0, 6⟩, .str []⟩) ∧
+    posBySchema auS1.nodes ⟨20, some ⟨0, 6⟩, .str []⟩ (anchorLinear auCx auS1.nodes ⟨20, some ⟨0, 6⟩, .str []⟩) = 10 :=
+  ⟨anchor_hash_eq_linear auS auCx _ _ _ auS1_inv (newOkB_sound (by decide)) rfl (by decide), by decide⟩
+
 /-- `lyd_insert_node` links the node behind every leading sibling that is `≤` it — whether or not the hash table exists:
     the result is the stable sorted insertion -/
 theorem insert_stable_sorted (S : Schema) (cx : Cx) (s : Sibs) (n : Node) (h : Inv S cx s) (hn : NewOk S cx s n) :
     (insertNode S cx s n).nodes =
       s.nodes.takeWhile (fun e => nle S e n) ++ n :: s.nodes.dropWhile (fun e => nle S e n) :=
   insertNode_nodes S cx s n h hn
+
+/-- non-vacuity (audit): leaf-list value 7 into `auS1` lands between 5 (id 7) and 9 (id 8) -/
+example : (insertNode auS auCx auS1 ⟨20, some ⟨0, 1⟩, .int 7⟩).nodes =
+      auS1.nodes.takeWhile (fun e => nle auS e ⟨20, some ⟨0, 1⟩, .int 7⟩) ++
+        ⟨20, some ⟨0, 1⟩, .int 7⟩ :: auS1.nodes.dropWhile (fun e => nle auS e ⟨20, some ⟨0, 1⟩, .int 7⟩) ∧
+    (insertNode auS auCx auS1 ⟨20, some ⟨0, 1⟩, .int 7⟩).nodes.map (·.id) = [2, 7, 20, 8, 3, 9, 1, 5, 10, 11, 12, 6] :=
+  ⟨insert_stable_sorted _ _ _ _ auS1_inv (newOkB_sound (by decide)), by decide⟩
 
 /-- Insertion-order independence: inserting the nodes `xs` one by one and inserting `ys` one by one give the same
     sibling list whenever every class of ties (user-ordered instances of one schema, opaque nodes, equal keys) occurs in
@@ -140,6 +489,75 @@ theorem insert_perm (S : Schema) (cx₁ cx₂ : Cx) (f₁ f₂ : Bool) (xs ys : 
   rw [runOps_inserts_nodes S cx₁ f₁ xs _ (inv_empty S cx₁ hw₁) hx,
     runOps_inserts_nodes S cx₂ f₂ ys _ (inv_empty S cx₂ hw₂) hy]
   exact sinsAll_canonical (fun a b => nle S a b) (nle_total S) (nle_trans S) xs ys hties
+
+/-- eight nodes over `auS` — two keyed-list instances, two leaf-list values, a leaf, two user-ordered list instances
+    (ids 1 then 5), an opaque node — and a second insertion order that keeps id 1 in front of id 5 -/
+def auXs : List Node :=
+  [⟨1, some ⟨0, 3⟩, .str [98]⟩, ⟨2, some ⟨0, 0⟩, .str [109]⟩, ⟨3, some ⟨0, 1⟩, .int 5⟩, ⟨4, some ⟨0, 0⟩, .str [99]⟩,
+   ⟨5, some ⟨0, 3⟩, .str [97]⟩, ⟨6, none, .str []⟩, ⟨7, some ⟨0, 1⟩, .int (-3)⟩, ⟨8, some ⟨0, 2⟩, .str []⟩]
+
+def auYs : List Node :=
+  [⟨8, some ⟨0, 2⟩, .str []⟩, ⟨7, some ⟨0, 1⟩, .int (-3)⟩, ⟨6, none, .str []⟩, ⟨1, some ⟨0, 3⟩, .str [98]⟩,
+   ⟨4, some ⟨0, 0⟩, .str [99]⟩, ⟨3, some ⟨0, 1⟩, .int 5⟩, ⟨5, some ⟨0, 3⟩, .str [97]⟩, ⟨2, some ⟨0, 0⟩, .str [109]⟩]
+
+/-- non-vacuity (audit): all hypotheses of `insert_perm` — including `hties` for EVERY node `a` (`ties_of_mem`) — hold for
+    `auXs` inserted below an inner node with the hash-table algorithm and `auYs` inserted with the linear algorithm and the
+    other change-value; the resulting order is the same -/
+example : (runOps auS auCx true ⟨[], none⟩ (auXs.map Op.insert)).nodes =
+      (runOps auS { auCx with nested := false } false ⟨[], none⟩ (auYs.map Op.insert)).nodes ∧
+    (runOps auS auCx true ⟨[], none⟩ (auXs.map Op.insert)).nodes.map (·.id) = [4, 2, 7, 3, 8, 1, 5, 6] :=
+  ⟨insert_perm auS auCx { auCx with nested := false } true false auXs auYs (by decide) (by decide)
+    (histOkB_sound (by decide)) (histOkB_sound (by decide)) (ties_of_mem _ _ _ (by decide)), by decide⟩
+
+-- AUDIT: the docstring's "in particular for any two permutations of nodes with pairwise distinct (schema, key)" is too
+-- generous: instances of ONE user-ordered (leaf-)list are ties whatever their keys are, so two permutations that swap
+-- them violate `hties` — and the results do differ (next theorem; this is the intended behaviour of ordered-by user, and
+-- `properties.jsonl` C04 excepts it).  The theorem itself is fine.  Correct reading: "… of nodes no two of which are
+-- ties", i.e. pairwise distinct (schema, key) AND at most one instance per user-ordered list AND at most one opaque
+-- node; that corollary is `insert_perm_of_perm` below.
+/-- two user-ordered list instances with distinct keys, inserted in the two possible orders, give different lists -/
+theorem insert_perm_distinct_keys_insufficient_for_userord :
+    (runOps auS auCx true ⟨[], none⟩ (([⟨1, some ⟨0, 3⟩, .str [98]⟩, ⟨5, some ⟨0, 3⟩, .str [97]⟩] : List Node).map Op.insert)).nodes ≠
+    (runOps auS auCx true ⟨[], none⟩ (([⟨5, some ⟨0, 3⟩, .str [97]⟩, ⟨1, some ⟨0, 3⟩, .str [98]⟩] : List Node).map Op.insert)).nodes := by
+  decide
+
+/-- Insertion-order independence in the form the property statement has it: two insertion orders (`ys` a permutation
+    of `xs`) of nodes no two of which are ties — pairwise different (schema, key) for system-ordered instances, at most
+    one instance of each user-ordered / key-less (leaf-)list, at most one opaque node — give the same sibling list,
+    whichever hash-table regime and change-value variant is in force. -/
+theorem insert_perm_of_perm (S : Schema) (cx₁ cx₂ : Cx) (f₁ f₂ : Bool) (xs ys : List Node)
+    (hw₁ : cx₁.nested = true → cx₁.top = false) (hw₂ : cx₂.nested = true → cx₂.top = false)
+    (hx : HistOk S cx₁ f₁ ⟨[], none⟩ (xs.map Op.insert)) (hy : HistOk S cx₂ f₂ ⟨[], none⟩ (ys.map Op.insert))
+    (hp : xs.Perm ys) (hnt : xs.Pairwise (fun a b => (nle S a b && nle S b a) = false)) :
+    (runOps S cx₁ f₁ ⟨[], none⟩ (xs.map Op.insert)).nodes = (runOps S cx₂ f₂ ⟨[], none⟩ (ys.map Op.insert)).nodes := by
+  refine insert_perm S cx₁ cx₂ f₁ f₂ xs ys hw₁ hw₂ hx hy ?_
+  intro a
+  have hpf := hp.filter (fun b => nle S a b && nle S b a)
+  have hpw := hnt.filter (fun b => nle S a b && nle S b a)
+  cases hfx : xs.filter (fun b => nle S a b && nle S b a) with
+  | nil => rw [hfx] at hpf; exact (List.nil_perm.1 hpf).symm
+  | cons b t =>
+    cases t with
+    | nil => rw [hfx] at hpf; exact List.singleton_perm.1 hpf
+    | cons c t' =>
+      exfalso
+      rw [hfx] at hpw
+      have hbc := (List.pairwise_cons.1 hpw).1 c (by simp)
+      have hb : b ∈ xs.filter (fun b => nle S a b && nle S b a) := by rw [hfx]; simp
+      have hc : c ∈ xs.filter (fun b => nle S a b && nle S b a) := by rw [hfx]; simp
+      have hb' := (List.mem_filter.1 hb).2
+      have hc' := (List.mem_filter.1 hc).2
+      rw [Bool.and_eq_true] at hb' hc'
+      have : (nle S b c && nle S c b) = true := by
+        rw [Bool.and_eq_true]
+        exact ⟨nle_trans S _ _ _ hb'.2 hc'.1, nle_trans S _ _ _ hc'.2 hb'.1⟩
+      rw [hbc] at this; cases this
+
+/-- non-vacuity (audit): six of the nodes of `auXs` (one instance per user-ordered list, one opaque node) in two orders -/
+example : (runOps auS auCx true ⟨[], none⟩ ((auXs.eraseIdx 4).map Op.insert)).nodes =
+    (runOps auS { auCx with nested := false } false ⟨[], none⟩ ((auXs.eraseIdx 4).reverse.map Op.insert)).nodes :=
+  insert_perm_of_perm auS auCx { auCx with nested := false } true false _ _ (by decide) (by decide)
+    (histOkB_sound (by decide)) (histOkB_sound (by decide)) (List.reverse_perm _).symm (by decide)
 
 /-! ## non-vacuity -/
 
